@@ -108,6 +108,41 @@ fn gen_history(reg: Reg, rng: &mut Prng) -> Vec<Step> {
         v.push(Step::Send);
         return v;
     }
+    if !reg.fixed() && rng.chance(1, 8) {
+        // structured: a channel the first accept's list defines is withdrawn by the list of a second accept
+        // (entry 0); then the network's mask names that slot alone (to be refused), or it deletes / re-defines
+        // what is left. Uplinks must go on, on channels that are defined and enabled
+        let j = reg.default_channels().len();
+        let mut f5 = [0u32; 5];
+        for f in f5.iter_mut() {
+            *f = (lo + rng.below(((hi - lo) / 100) as u64) as u32 * 100) / 100;
+        }
+        let list = |f5: &[u32; 5]| {
+            let mut b = [0u8; 16];
+            for i in 0..5 {
+                b[3 * i..3 * i + 3].copy_from_slice(&f5[i].to_le_bytes()[..3]);
+            }
+            b
+        };
+        v.push(Step::Rejoin(Some(list(&f5))));
+        v.push(Step::Send);
+        let k = rng.below(5) as usize;
+        let mut g5 = f5;
+        g5[k] = 0;
+        if rng.bool() {
+            g5[(k + 1 + rng.below(4) as usize) % 5] = 0;
+        }
+        v.push(Step::Rejoin(Some(list(&g5))));
+        v.push(Step::Mac(link_adr_req(15, 15, 1 << (j + k), 0, 1), rng.bool()));
+        v.push(Step::Send);
+        if rng.bool() {
+            v.push(Step::Mac(new_channel_req((j + k) as u8, 0, 0x50), rng.bool()));
+            v.push(Step::Mac(link_adr_req(15, 15, 1 << (j + k), 0, 1), rng.bool()));
+        }
+        v.push(Step::Send);
+        v.push(Step::Send);
+        return v;
+    }
     for _ in 0..n {
         let s = match rng.below(11) {
             10 => {
